@@ -72,11 +72,37 @@ def damaged_script(draw, max_statements=3):
     return text
 
 
-def any_text(tier='quick', weights=(3, 2, 2, 3, 2, 2, 1)):
+@st.composite
+def batch_script(draw):
+    """T-SQL style batch script: statements separated by ';' and/or GO lines (any case, 'GO n'), some of them damaged so
+    that parentheses / blocks stay open across a separator"""
+    k = draw(st.integers(2, 6))
+    parts = []
+    for i in range(k):
+        kind = draw(st.integers(0, 9))
+        if kind < 5:
+            laid = draw(grammar.layout(draw(grammar.small_statement()), comments=0))
+            text, clean, spans, marks = grammar.assemble(laid)
+            if draw(st.integers(0, 3)) == 0 and clean:
+                j = draw(st.integers(0, len(clean) - 1))
+                a, b = spans[j]
+                text = text[:a] + text[b:]
+        elif kind < 7:
+            text = draw(soup.soup(6))
+        else:
+            text = draw(st.sampled_from(['select (1', 'select 1)', 'CREATE PROCEDURE p AS DECLARE @x INT; SELECT @x', 'CREATE PROCEDURE q AS BEGIN IF @a = 1 SELECT 1; END',
+                                         'begin', 'declare @v int', 'if x begin select 1 end', 'select case when a then 1', 'create function f() returns int begin return 1',
+                                         'insert into t values (1, (2', 'select 1', 'update t set a = 1', 'exec p 1, 2', 'use db']))
+        parts.append(text)
+        parts.append(draw(st.sampled_from([';', ';', '; ', ';\n', '\nGO\n', ';\nGO\n', ' GO ', '\ngo\n', ';\nGO 2\n', '\n', ' ; GO\n', '\nGo\n'])))
+    return ''.join(parts)
+
+
+def any_text(tier='quick', weights=(3, 2, 2, 3, 2, 2, 1, 2)):
     from gen import proc
     quick = tier == 'quick'
     srcs = [chars.text(quick), soup.soup(), soup.structured_text(), grammar.rendered_script(3), damaged_script(),
-            proc.rendered_script(), corpus_mutation()]
+            proc.rendered_script(), corpus_mutation(), batch_script()]
     pool = []
     for s, w in zip(srcs, weights):
         pool.extend([s] * w)
